@@ -384,7 +384,17 @@ func runGate(dir string) map[string]any {
 			swapping.Store(false)
 		}
 	})
-	env.Db.RestoreFromReader(bytes.NewReader(data))
+	func() {
+		defer func() {
+			if p := recover(); p != nil {
+				mu.Lock()
+				results = append(results, res{kind: "restore", err: fmt.Errorf("RestoreFromReader panicked: %v", p)})
+				mu.Unlock()
+				swapping.Store(false)
+			}
+		}()
+		env.Db.RestoreFromReader(bytes.NewReader(data))
+	}()
 	wg.Wait()
 	var bad []string
 	for _, r := range results {
@@ -427,7 +437,10 @@ func runOverlap(dir string) []string {
 			}
 			data, _ := os.ReadFile(actual)
 			_ = os.Remove(actual)
-			env.Db.RestoreSnapshot(data)
+			if p := safely(func() { env.Db.RestoreSnapshot(data) }); p != nil {
+				bad = append(bad, fmt.Sprintf("RestoreSnapshot panicked: %v", p))
+				return
+			}
 			var calls int64
 			inside := make(chan struct{})
 			secondDone := make(chan struct{})
@@ -466,6 +479,13 @@ func runOverlap(dir string) []string {
 		}()
 	}
 	return bad
+}
+
+// safely runs f and returns what it panicked with (nil when it returned)
+func safely(f func()) (p any) {
+	defer func() { p = recover() }()
+	f()
+	return nil
 }
 
 // stress: readers and writers run against repeated restores; every transaction reads its view twice and must see one
@@ -558,7 +578,10 @@ func runStress(dir string, dur time.Duration) map[string]any {
 	}
 	end := time.Now().Add(dur)
 	for i := 0; time.Now().Before(end); i++ {
-		env.Db.RestoreSnapshot(snapsData[i%2])
+		if p := safely(func() { env.Db.RestoreSnapshot(snapsData[i%2]) }); p != nil {
+			note(fmt.Sprintf("restore number %d panicked: %v", i+1, p))
+			break
+		}
 		atomic.AddInt64(&restores, 1)
 		time.Sleep(2 * time.Millisecond)
 	}
